@@ -589,7 +589,8 @@ class CasXmiSerializer:
             # a number at the end, e.g. `type0`
 
             new_prefix = raw_prefix
-            if raw_prefix in self._nsmap:
+            # The numbered prefix may be taken as well, e.g. by a package whose last component is `type0`
+            while new_prefix in self._nsmap:
                 suffix = self._duplicate_namespaces[raw_prefix]
                 self._duplicate_namespaces[raw_prefix] += 1
                 new_prefix = raw_prefix + str(suffix)
